@@ -4,7 +4,8 @@ name="$1"; id="$2"; tier="${3:-quick}"
 cd /verif
 git -C /repo diff --quiet || { echo "/repo not clean"; exit 2; }
 git -C /repo apply /verif/seeded/$name/patch.diff || { echo "apply failed"; exit 2; }
-trap 'git -C /repo checkout -- . ' EXIT
+cp evidence/$id.json /tmp/evidence_$id.bak 2>/dev/null
+trap 'git -C /repo checkout -- . ; cp /tmp/evidence_'$id'.bak /verif/evidence/'$id'.json 2>/dev/null' EXIT   # the evidence file describes the unchanged tree
 ./check $id --tier $tier > /tmp/mut_${name}_${id}.log 2>&1; rc=$?
 echo "mutant=$name check=$id tier=$tier rc=$rc  $(grep -c ^VIOLATION /tmp/mut_${name}_${id}.log) violation lines"
 grep -E "^VIOLATION|class=" /tmp/mut_${name}_${id}.log | head -4
